@@ -36,6 +36,9 @@ pub enum MutOp {
     Truncate(u16),
     /// replace the n-th digit run (index fraction) by a huge number: variant picks 2^31, 2^63, 2^64-1, 2^64, 40 digits (decimal or hex)
     Blowup(u16, u8),
+    /// the transport fails once with an I/O error after this fraction of the (mutated) wire has been served, then goes on:
+    /// kind 0 timed out, 1 would block, 2 connection reset, 3 interrupted
+    IoErr(u16, u8),
 }
 
 #[derive(Debug, Clone, Serialize, Deserialize)]
@@ -107,6 +110,7 @@ fn op_strategy() -> BoxedStrategy<MutOp> {
         2 => (any::<u16>(), 1u16..40).prop_map(|(p, l)| MutOp::Delete(p, l)),
         2 => any::<u16>().prop_map(MutOp::Truncate),
         4 => (any::<u16>(), 0u8..10).prop_map(|(p, v)| MutOp::Blowup(p, v)),
+        3 => (any::<u16>(), 0u8..4).prop_map(|(p, k)| MutOp::IoErr(p, k)),
     ]
     .boxed()
 }
@@ -238,7 +242,40 @@ fn apply_op(w: &mut Vec<u8>, op: &MutOp) {
             };
             w.splice(s..e, rep.bytes());
         }
+        MutOp::IoErr(..) => {}
     }
+}
+
+/// Insert an error event after `offset` served bytes.
+fn insert_err(events: Vec<Ev>, offset: usize, kind: std::io::ErrorKind) -> Vec<Ev> {
+    let mut out = vec![];
+    let mut pos = 0;
+    let mut done = false;
+    for ev in events {
+        match ev {
+            Ev::Data(d) if !done && pos + d.len() > offset => {
+                let k = offset - pos;
+                if k > 0 {
+                    out.push(Ev::Data(d[..k].to_vec()));
+                }
+                out.push(Ev::Err(kind));
+                out.push(Ev::Data(d[k..].to_vec()));
+                pos += d.len();
+                done = true;
+            }
+            Ev::Data(d) => {
+                pos += d.len();
+                out.push(Ev::Data(d));
+            }
+            Ev::Eof if !done => {
+                out.push(Ev::Err(kind));
+                out.push(Ev::Eof);
+                done = true;
+            }
+            other => out.push(other),
+        }
+    }
+    out
 }
 
 struct Run {
@@ -401,7 +438,7 @@ impl Property for C05 {
     const ID: &'static str = "C05";
     const RULE: &'static str = "G-a: every string over {0,1,a,;,:,SP,CR,LF,x} up to length L (quick 5, thorough 7) in five contexts (whole response, after a status line, chunked body, \
 Content-Length value, CONNECT reply); G-b: proptest-generated valid responses (plain, gzip/deflate, redirect, JSON, charset, CONNECT reply) with 1-4 mutation operators (bit flip, splice, duplication, \
-deletion, truncation, numeric blow-up 2^31/2^63/2^64-1/2^64/40 digits) under all segmentations; G-c: one endless stream per unbounded-looking construct. Each drives send() (with redirects and \
+deletion, truncation, numeric blow-up 2^31/2^63/2^64-1/2^64/40 digits, a transient transport error after which the stream goes on) under all segmentations; G-c: one endless stream per unbounded-looking construct. Each drives send() (with redirects and \
 CONNECT) then a generated API call mix. Oracle: no panic, termination decided by transport counters (reads at EOF, bounded pull), peak heap <= 256 KiB + 16 x max(bytes served, bytes delivered) \
 (64 x for json). non-trivial = input rejected somewhere (some call returned Err) or it got past the head; distinct by case hash";
 
@@ -501,6 +538,12 @@ CONNECT) then a generated API call mix. Oracle: no panic, termination decided by
                 json = matches!(api, Api::Json);
                 let mut ev = seg.split(&wire, &structural);
                 ev.push(Ev::Eof);
+                for op in ops {
+                    if let MutOp::IoErr(p, k) = op {
+                        let kind = [std::io::ErrorKind::TimedOut, std::io::ErrorKind::WouldBlock, std::io::ErrorKind::ConnectionReset, std::io::ErrorKind::Interrupted][*k as usize % 4];
+                        ev = insert_err(ev, frac(*p, wire.len() + 1), kind);
+                    }
+                }
                 let scripts: Vec<Vec<Ev>> = (0..8).map(|_| ev.clone()).collect();
                 let (url, proxy) = match base {
                     Base::ConnectReply { .. } => ("https://origin.test/", Some("http://proxy.test:3128")),
@@ -522,6 +565,7 @@ CONNECT) then a generated API call mix. Oracle: no panic, termination decided by
                         MutOp::Delete(..) => "op:delete",
                         MutOp::Truncate(..) => "op:truncate",
                         MutOp::Blowup(..) => "op:blowup",
+                        MutOp::IoErr(..) => "op:io-error",
                     });
                 }
                 sig_class = "mutant".into();
